@@ -435,6 +435,15 @@ def run_C05(ctx):
                     if v > 0:
                         cases.append(build_case(m, e, v - 1, None, payload(rng, m, hi)))
                     cases.append(build_case(m, e, min(39, v + 1), None, payload(rng, m, hi)))
+        # a forced mode that is less dense than the automatic choice: capacity must follow the FORCED mode
+        for fm, nat in [(2, 0), (2, 1), (1, 0)]:
+            for e in range(4):
+                for v in ([0, 1, 5, 9, 24, 39] if ctx.quick else range(40)):
+                    hi = cp[fm][e][v]
+                    for n in (hi, hi + 1):
+                        data = payload(rng, nat, n)
+                        cases.append(build_case(fm, e, None, None, data))
+                        cases.append(build_case(fm, e, v, None, data))
         for n in [7090, 7500, 8000] + ([20000] if not ctx.quick else []):
             cases.append(build_case(0, 0, None, None, payload(rng, 0, n)))
             cases.append(build_case(2, 3, rng.randrange(40), None, payload(rng, 2, n)))
